@@ -548,6 +548,16 @@ func (c *comp) Shutdown(context.Context) error {
 	if g.PauseShut >= 0 && pick(g.comps(), g.PauseShut) == c.id {
 		w.pause(c, "shutdown")
 	}
+	if g.HoldMs > 0 && pick(g.comps(), g.HoldComp) == c.id {
+		// a slow drain: the component simply needs this long to stop
+		w.add(c.gen, c.id, "h:holding-in-shutdown", false)
+		tm := time.NewTimer(time.Duration(g.HoldMs) * time.Millisecond)
+		select {
+		case <-tm.C:
+		case <-w.abandoned:
+			tm.Stop()
+		}
+	}
 	if g.ShutFail >= 0 && pick(g.comps(), g.ShutFail) == c.id {
 		w.add(c.gen, c.id, "shutdown-end", true)
 		return errors.New(token("shutdown", c.gen, c.id))
